@@ -10,8 +10,9 @@ import vkit
 SPEC = "HttpFraming"
 
 # ----------------------------------------------------------------------------- TLC
-def consts(view, lines, hdrs, bodies, maxhdr, maxmsg, seg="none", reqseqs=(), eofs=(False,)):
-    return {"View": view, "LineToks": set(lines), "HdrToks": set(hdrs), "BodyToks": set(bodies),
+def consts(view, lines, hdrs, bodies, maxhdr, maxmsg, seg="none", reqseqs=(), eofs=(False,), sizes=(), prefixes=False):
+    return {"Prefixes": prefixes, "RecvSizes": _Raw("{" + ", ".join(str(k) for k in sizes) + "}"),
+            "View": view, "LineToks": set(lines), "HdrToks": set(hdrs), "BodyToks": set(bodies),
             "MaxHdr": maxhdr, "MaxMsg": maxmsg, "Seg": seg,
             "ReqSeqs": _SetOfSeqs(reqseqs), "Eofs": _Raw("{" + ", ".join("TRUE" if e else "FALSE" for e in eofs) + "}")}
 
@@ -64,9 +65,11 @@ def model_check(chk, name, c, *, timeout=1500, workers=None, client=False):
     """Decide the reference's own properties on every segmentation of every stream of the alphabet."""
     inv = ["TypeOK", "SegmentationIndependent", "NoGuessingClient" if client else "NoGuessing"]
     cfg = write_cfg(name, c, invariants=inv, properties=["PrefixStable"])
-    res = vkit.tlc(SPEC, cfg, want_prints=False, timeout=timeout, coverage=True, workers=workers)
+    # (TLC's -coverage is unusable here: it exhausts the heap on the recursive string operators)
+    res = vkit.tlc(SPEC, cfg, want_prints=False, timeout=timeout, workers=workers)
     chk.add_tlc(name, res)
-    chk.check_coverage(res, ["NewMsg", "AddHdr", "SetBody", "Seal", "Recv"], name)
+    if res.distinct < 300 or res.generated < 3 * res.distinct:
+        raise vkit.InfraError("vacuous model run %s: %r" % (name, res))
     return res
 
 
@@ -223,4 +226,102 @@ def run_server(chk, exe, streams, rng, *, label, single="all", nrand=4, cfg=None
             if nfail <= limit_report or key:
                 chk.violation("%s stream %r (tokens %s): %s" % (label, s["bytes"], json.dumps(s["toks"]), msg),
                               {"scenario": sc, "stream": s, "observed": o}, key=key)
+    return nfail
+
+
+# ----------------------------------------------------------------------------- comparison (client view)
+def match_alt_client(alt, o):
+    out, end = alt["out"], alt["end"]
+    cb = o["cb"]
+    if len(cb) < len(out):
+        return "expected %d completed responses, got %d callbacks" % (len(out), len(cb))
+    for i, e in enumerate(out):
+        a = cb[i]
+        if a.get("fail"):
+            return "request %d: failure reported, expected status %d" % (i, e["code"])
+        if a["i"] != i:
+            return "callback order: %s" % [c["i"] for c in cb]
+        if a["code"] != e["code"] or list(a["v"]) != list(e["v"]):
+            return "request %d: status %s version %s, expected %s %s" % (i, a["code"], a["v"], e["code"], e["v"])
+        if not (_hdr_match(e["h"], a["h"]) or (e["trl"] and _hdr_match(e["h"] + e["trl"], a["h"]))):
+            return "request %d header fields: expected %s got %s" % (i, json.dumps(e["h"]), json.dumps(a["h"]))
+        if not e["anyb"] and e["b"] != a["b"]:
+            return "request %d body: expected %r got %r" % (i, e["b"], a["b"])
+    rest = cb[len(out):]
+    if end in ("open", "partial"):
+        if rest:
+            return "no further completion expected, got %s" % json.dumps(rest)
+        if o["closed"]:
+            return "connection closed although it should persist"
+    elif end == "rejected":
+        if not rest or not rest[0].get("fail"):
+            return "request %d must fail, got %s" % (len(out), json.dumps(rest[:1]))
+    return None
+
+
+def match_client(alts, o):
+    why = []
+    for alt in alts:
+        m = match_alt_client(alt, o)
+        if m is None:
+            return None
+        why.append("[%s after %d] %s" % (alt["end"], len(alt["out"]), m))
+    return why
+
+
+def run_client(chk, exe, streams, rng, *, label, single="all", nrand=3, cfg=None, keyfn=None, limit_report=6,
+               prefix_sample=None):
+    """Feed every response stream (and, when the generator printed them, its prefixes followed by the peer's close)
+    to a real evhttp_connection that has the stream's request list queued."""
+    scen, meta = [], []
+    for s in streams:
+        n = len(s["bytes"])
+        segs = segmentations(n, rng, single=single, nrand=nrand)
+        scen.append({"mode": "client", "cfg": cfg or {}, "bytes": s["bytes"], "segs": segs, "reqs": s["rq"],
+                     "eof": 1 if s["eof"] else 0})
+        meta.append((s, s["alts"], segs, "full"))
+        if s.get("pre"):
+            ps = list(range(1, n))
+            if prefix_sample and len(ps) > prefix_sample:
+                ps = sorted(rng.sample(ps, prefix_sample))
+            for p in ps:
+                sg = [[]] + ([list(range(1, p))] if p > 1 else [])
+                scen.append({"mode": "client", "cfg": cfg or {}, "bytes": s["bytes"][:p], "segs": sg, "reqs": s["rq"], "eof": 1})
+                meta.append((s, s["pre"][p - 1], sg, "close after %d octets" % p))
+    outs = vkit.run_driver(exe, scen, timeout=900)
+    nfail = 0
+    failed_streams = set()
+    for (s, alts, segs, what), sc, o in zip(meta, scen, outs):
+        chk.cov["traces_validated_against_impl"] += len(segs)
+        chk.cov.setdefault("peer_close_points", 0)
+        if what != "full":
+            chk.cov["peer_close_points"] += 1
+        msg = None
+        if o is None or "crash" in o:
+            if o and o.get("hang"):
+                raise vkit.InfraError("driver hang on %r" % sc)
+            msg = "driver crashed: %s" % (o or {}).get("crash", "no output")
+        elif o.get("hang"):
+            raise vkit.InfraError("driver watchdog on %s: %s" % (json.dumps(sc)[:400], json.dumps(o)[:500]))
+        else:
+            for r in o["runs"]:
+                why = match_client(alts, r["o"])
+                if why:
+                    msg = "segmentation %s: observed %s; not allowed by the reference: %s" % (
+                        segs[r["segs"][0]], json.dumps(r["o"]), "; ".join(why))
+                    break
+            if msg is None and len({json.dumps([r["o"]["cb"], r["o"]["closed"]]) for r in o["runs"]}) > 1:
+                msg = "completions depend on the segmentation: " + " | ".join(
+                    "%s -> %s" % (segs[r["segs"][0]], json.dumps(r["o"]["cb"])) for r in o["runs"][:3])
+        if msg:
+            key = keyfn(s) if keyfn else None
+            sid = (s["bytes"], json.dumps(s["rq"]), s["eof"])
+            if sid in failed_streams and not key:
+                continue
+            failed_streams.add(sid)
+            nfail += 1
+            if nfail <= limit_report or key:
+                chk.violation("%s requests %s, response stream %r (%s; tokens %s): %s" % (
+                    label, s["rq"], sc["bytes"], what, json.dumps(s["toks"]), msg),
+                    {"scenario": sc, "stream": s, "observed": o}, key=key)
     return nfail
